@@ -65,7 +65,7 @@ impl<T: Transport, E: UtpEnvironment> VsockDriver<T, E> {
         let v = &self.vsock;
         let o = |x: Option<u128>| x.map(|n| n.to_string()).unwrap_or_else(|| "-".into());
         format!(
-            "st={:?} seq={} lss={} lc={} lsa={} lsw={} cbu={} rtor={} lrw={} t_rtx={} t_inact={} t_ack={} t_pipe={} t_syn={} rto={} rtt={} ss={:?} rec={}",
+            "st={:?} seq={} lss={} lc={} lsa={} lsw={} cbu={} rtor={} lrw={} t_rtx={} t_inact={} t_ack={} t_pipe={} t_syn={} sleep={} rto={} rtt={} ss={:?} rec={}",
             v.state,
             v.seq_nr,
             v.last_sent_seq_nr,
@@ -80,6 +80,12 @@ impl<T: Transport, E: UtpEnvironment> VsockDriver<T, E> {
             o(rel(&v.timers.ack_delay_timer, base)),
             o(rel(&v.timers.recovery_pipe_expiry, base)),
             o(rel(&v.timers.syn_ack_resend, base)),
+            v.timers
+                .sleep
+                .deadline()
+                .into_std()
+                .saturating_duration_since(base)
+                .as_nanos(),
             v.rtte.retransmission_timeout().as_nanos(),
             v.rtte.roundtrip_time().as_nanos(),
             v.segment_sizes.log_debug(),
